@@ -418,6 +418,27 @@ class Unit:
             cb = match_bracket(m, ob)
             text_sig, text_body = text[:ob].strip(), text[ob + 1:cb]
             sha = span.sha(); line = span.line()
+        # R6: phf_set! literal tables -> generated membership function with the SAME element list (read from the source now)
+        generated = []
+        for kw, arg, _ in sec.block('phfset'):
+            nm = arg.split()[0]
+            pat = re.compile(r'static\s+' + re.escape(nm) + r'\s*:\s*phf::Set<\s*(&?\w+)\s*>\s*=\s*phf_set!\s*\{([^}]*)\}\s*;')
+            mm = pat.search(text_body) or pat.search(src.text)
+            if not mm:
+                raise CutError("%s: phf_set %s not found (lost anchor)" % (path, nm))
+            ty = mm.group(1)
+            elems = [e.strip() for e in split_top_commas(re.sub(r'//[^\n]*', '', mm.group(2))) if e.strip()]
+            if ty == 'char':
+                cond = ' || '.join('c == %s' % e for e in elems) or 'false'
+                generated.append("/// R6: generated from `static %s: phf::Set<char> = phf_set!{..}` (%d elements; phf lookup == membership in this literal is ASSUMED)\n"
+                                 "#[verifier::external_body]\nfn vset_%s_contains(c: char) -> (r: bool)\n    ensures r == (%s)\n{ unimplemented!() }" % (nm, len(elems), nm, cond))
+            else:
+                cond = ' || '.join('c@ == %s@' % e for e in elems) or 'false'
+                generated.append("/// R6: generated from `static %s: phf::Set<&str> = phf_set!{..}` (%d elements; phf lookup == membership in this literal is ASSUMED)\n"
+                                 "#[verifier::external_body]\nfn vset_%s_contains(c: &str) -> (r: bool)\n    ensures r == (%s)\n{ unimplemented!() }" % (nm, len(elems), nm, cond))
+            text_body = pat.sub('', text_body)
+            text_body = re.sub(re.escape(nm) + r'\.contains\(&?([^()]*(?:\([^()]*\))?[^()]*)\)', r'vset_%s_contains(\1)' % nm, text_body)
+            log.append(('R6', 'phf_set %s (%d elements) -> generated membership function' % (nm, len(elems)), 1))
         # rewrites
         text_body = apply_standard_rewrites(text_body, log)
         for kw, arg, _ in sec.block('subst'):
@@ -484,7 +505,7 @@ class Unit:
                 out_lines.append(bl)
             text_body = '\n'.join(out_lines)
         attrs = ''.join(a[1] + '\n' for a in sec.block('attr'))
-        full = attrs + text_sig + '\n' + '\n'.join(contract) + ('\n' if contract else '') + '{' + text_body + '}'
+        full = ''.join(g + '\n' for g in generated) + attrs + text_sig + '\n' + '\n'.join(contract) + ('\n' if contract else '') + '{' + text_body + '}'
         mb = mask(text_body)
         n_closures = len(re.findall(r'(?<![|&\w\)\]])\|(?!\|)[^|\n;{}]*\|(?!\|)', re.sub(r'(forall|exists|choose)\s*\|[^|]*\|', '', mb)))
         n_loops = len(loops_in(text_body))
